@@ -6,6 +6,7 @@ import (
 	"fmt"
 	"os"
 	"sort"
+	"path/filepath"
 	"strings"
 	"time"
 )
@@ -131,7 +132,16 @@ func cmdVC(args []string) {
 		if v := os.Getenv("GOVC_FBS"); v != "" {
 			fmt.Sscanf(v, "%d", &fbs)
 		}
-		rs, vac := x.SolveFiltered(SolveOpts{Dir: dir, QuickMs: qms, FallbackS: fbs})
+		so := SolveOpts{Dir: dir, QuickMs: qms, FallbackS: fbs}
+		if on := os.Getenv("GOVC_ONLY"); on != "" {
+			so.Only = map[string]bool{}
+			for _, o := range x.obls {
+				if strings.Contains(o.Name, on) {
+					so.Only[o.Name] = true
+				}
+			}
+		}
+		rs, vac := x.SolveFiltered(so)
 		if vac {
 			fmt.Println("  !! VACUOUS: assumptions are unsatisfiable")
 			fmt.Println("     ", x.FindVacuity(dir))
@@ -154,6 +164,76 @@ func cmdVC(args []string) {
 			}
 			if r.Status == "sat" && *dump {
 				fmt.Println(r.Model)
+			}
+			if sh := os.Getenv("GOVC_SHOW"); sh != "" && strings.Contains(r.O.Name, sh) {
+				var cj []*Term
+				var fl func(t *Term)
+				fl = func(t *Term) {
+					if t.Kind == KApp && t.Op == "and" {
+						for _, a := range t.Args {
+							fl(a)
+						}
+						return
+					}
+					cj = append(cj, t)
+				}
+				fl(r.O.PC)
+				for _, c := range cj {
+					var sbb strings.Builder
+					c.print(&sbb, nil)
+					txt := sbb.String()
+					if len(txt) > 20000 {
+						txt = txt[:20000] + " ..."
+					}
+					fmt.Printf("      pc: %s\n", txt)
+				}
+			}
+			if cv := os.Getenv("GOVC_COVER"); cv != "" && strings.Contains(r.O.Name, cv) {
+				o2 := *r.O
+				o2.Goal = x.tt.False()
+				emitMu.Lock()
+				sc := x.standaloneScript(&o2, "z3", false)
+				emitMu.Unlock()
+				f := filepath.Join(dir, "cover.smt2")
+				os.WriteFile(f, []byte(sc), 0o644)
+				out, sec := runSolver("z3-new", f, 20)
+				fmt.Printf("        cover (is the path feasible? sat = yes): %s (%.1fs)\n", firstStatus(out), sec)
+				if firstStatus(out) == "unsat" && os.Getenv("GOVC_CORE") != "" {
+					// name the assertions and ask for an unsat core: which facts make the path infeasible
+					var sb strings.Builder
+					sb.WriteString("(set-option :produce-unsat-cores true)\n")
+					k := 0
+					for _, l := range strings.Split(sc, "\n") {
+						if strings.HasPrefix(l, "(assert ") && strings.HasSuffix(l, ")") {
+							l = fmt.Sprintf("(assert (! %s :named a%d))", l[len("(assert "):len(l)-1], k)
+							k++
+						}
+						sb.WriteString(l + "\n")
+					}
+					sb.WriteString("(get-unsat-core)\n")
+					f2 := filepath.Join(dir, "core.smt2")
+					os.WriteFile(f2, []byte(sb.String()), 0o644)
+					out2, _ := runSolver("z3-new", f2, 60)
+					fmt.Println("        core:", strings.TrimSpace(out2))
+					for _, w := range strings.FieldsFunc(out2, func(r rune) bool { return r == ' ' || r == '(' || r == ')' || r == '\n' }) {
+						if strings.HasPrefix(w, "a") {
+							var id int
+							if _, err := fmt.Sscanf(w, "a%d", &id); err == nil && id < len(r.O.Facts) {
+								ft := r.O.Facts[id]
+								txt := ft.String()
+								if ft.Kind == KApp && ft.Op == "=>" && len(ft.Args) == 2 {
+									txt = "[pc] => " + ft.Args[1].String()
+								}
+								if os.Getenv("GOVC_CORE") == "2" {
+									var sbb strings.Builder
+									ft.print(&sbb, nil)
+									txt = sbb.String()
+								}
+								fmt.Printf("          a%d: %s\n", id, txt)
+							}
+						}
+					}
+				}
 			}
 			if r.Status != "unsat" && os.Getenv("GOVC_EXPLAIN") != "" {
 				x.explain(r.O, dir)
